@@ -39,16 +39,100 @@ def predicate(reqs, impl):
     return fails
 
 
+MAP_FILES = {
+    "go.mod": "module gv.test/salt\n\ngo 1.26\n",
+    "main.go": 'package main\n\nimport (\n\t"fmt"\n\t"gv.test/salt/lib"\n\t"gv.test/salt/other"\n)\n\nfunc main() { fmt.Println(lib.Make(3).Describe(), other.Count) }\n',
+    "lib/lib.go": "package lib\n\nimport \"fmt\"\n\ntype Widget struct {\n\tSize  int\n\tLabel string\n}\n\nvar Default = Widget{Size: 1}\n\nfunc Make(n int) Widget { return Widget{Size: n, Label: \"w\"} }\n\nfunc (w Widget) Describe() string { return fmt.Sprint(w.Size, w.Label) }\n",
+    "lib/tagged.go": "//go:build extra\n\npackage lib\n\nvar Extra = 1\n",
+    "other/o.go": "package other\n\nvar Count = 7\n\ntype Widget struct {\n\tSize  int\n\tLabel string\n}\n",
+}
+
+
+def map_pairs(chk, tier, fails):
+    """the property's own observable: complete name maps (garble map) of two runs that differ in exactly one input"""
+    import json, os
+    from . import e2e, c06
+    E = e2e.E2E("c12")
+    st = chk.cov["streams"].setdefault("e2e:map-pairs", {"maps": 0, "pairs": 0})
+    try:
+        def names(files, gflags, args=(), tag="m"):
+            root = os.path.join(E.scratch, tag)
+            import shutil
+            shutil.rmtree(root, ignore_errors=True)
+            c06.write_prog(root, files)
+            r = E.run_garble(gflags, ["map"] + list(args) + ["./..."], root)
+            st["maps"] += 1
+            if r.returncode != 0:
+                raise RuntimeError("garble map failed: " + r.stderr[-400:])
+            m = json.loads(r.stdout)
+            out = {}
+            for ip, d in m.items():
+                if not ip.startswith("gv.test/salt"):
+                    continue
+                if d["path"] != "main":
+                    out[(ip, "(import path)")] = d["path"]
+                for op, n in d["objects"].items():
+                    out[(ip, op)] = n
+            return out
+        def is_field(k):
+            import re
+            return re.search(r"F\d+$", k[1]) is not None      # objectpath of a struct field (T.UF0, ...)
+        def pair(label, a, b, must_equal=None, must_differ=None):
+            st["pairs"] += 1
+            chk.count_cases(["map-pair|" + label])
+            for k in sorted(set(a) & set(b)):
+                if must_equal and must_equal(k) and a[k] != b[k]:
+                    fails.append({"why": "a name that must not depend on the changed input changed", "detail": {"pair": label, "package": k[0], "object": k[1], "first": a[k], "second": b[k]}, "key": "name-moves:" + label}); return
+                if must_differ and must_differ(k) and a[k] == b[k]:
+                    fails.append({"why": "a name that must depend on the changed input did not change", "detail": {"pair": label, "package": k[0], "object": k[1], "name": a[k]}, "key": "name-stays:" + label}); return
+        S1, S2, S3 = "c2VlZHNlZWQtb25l", "c2VlZHNlZWQtdHdv", "AAECAwQFBgc"          # S1 and S2 share their first 8 bytes
+        edited = dict(MAP_FILES, **{"lib/lib.go": MAP_FILES["lib/lib.go"] + "\n// a comment-only edit\n"})
+        edited_other = dict(MAP_FILES, **{"other/o.go": MAP_FILES["other/o.go"] + "\nfunc Unrelated() int { return 1 }\n"})
+        everything = lambda k: True
+        # seeded
+        base = names(MAP_FILES, ["-seed=" + S1])
+        pair("seeded: -literals added", base, names(MAP_FILES, ["-seed=" + S1, "-literals"]), must_equal=everything)
+        pair("seeded: -tiny added", base, names(MAP_FILES, ["-seed=" + S1, "-tiny"]), must_equal=everything)
+        pair("seeded: edit in another package", base, names(edited_other, ["-seed=" + S1]), must_equal=everything)
+        pair("seeded: edit in the package", base, names(edited, ["-seed=" + S1]), must_equal=everything)
+        pair("seeded: build tag", base, names(MAP_FILES, ["-seed=" + S1], ["-tags=extra"]), must_equal=everything)
+        pair("seeded: another seed with the same first 8 bytes", base, names(MAP_FILES, ["-seed=" + S2]), must_differ=everything)
+        pair("seeded: another seed", base, names(MAP_FILES, ["-seed=" + S3]), must_differ=everything)
+        same_named = [(("gv.test/salt/lib", op), ("gv.test/salt/other", op)) for op in ("Widget",)]
+        for ka, kb in same_named:
+            if ka in base and kb in base and base[ka] == base[kb]:
+                fails.append({"why": "with -seed, the same identifier gets the same name in two packages", "detail": {"object": ka[1], "name": base[ka]}, "key": "seeded-name-does-not-separate-packages"})
+        for op in ("Widget.F0", "Widget.F1"):
+            ka, kb = ("gv.test/salt/lib", op), ("gv.test/salt/other", op)
+            if ka in base and kb in base and base[ka] != base[kb]:
+                fails.append({"why": "fields of identical structs get different names in two packages", "detail": {"field": op, "names": [base[ka], base[kb]]}, "key": "field-names-differ-across-packages"})
+        # unseeded
+        u = names(MAP_FILES, [])
+        in_lib_pkg_scoped = lambda k: k[0] == "gv.test/salt/lib" and not is_field(k)
+        pair("unseeded: comment-only edit in the package", u, names(edited, []), must_differ=in_lib_pkg_scoped,
+             must_equal=lambda k: is_field(k) or k[0] == "gv.test/salt/other")
+        pair("unseeded: -tiny added", u, names(MAP_FILES, ["-tiny"]), must_differ=everything)
+        if tier == "thorough":
+            pair("unseeded: -literals added", u, names(MAP_FILES, ["-literals"]), must_differ=everything)
+            pair("unseeded: same inputs again", u, names(MAP_FILES, []), must_equal=everything)
+    finally:
+        E.cleanup()
+
+
 def main(tier, replay=None):
     chk = core.Check(PID, tier)
     core.build_tools()
     if replay:
         return oracle.replay_oracle(chk, replay, predicate)
     chk.proofs(GENS, MODULES)
+    FAILS = []
     n = 6000 if tier == "quick" else 200000
     specs = [("c12", chk.seed, n), ("c16", chk.seed + 1, 3000 if tier == "quick" else 50000)]
     oracle.oracle_property(chk, specs, predicate, [("c12", chk.seed + 7919 * k, 100000) for k in range(1, 4)],
                            explain="`cfg literals tiny debug debugdir ctrlflow testobf gogarble binid`, `pkg path garbleActionID`, `hpkg path name class` = hashWithPackage, `gaction x` = addGarbleToHash(x)")
+    map_pairs(chk, tier, FAILS)
+    for f in FAILS:
+        chk.violation(f["why"] + ": " + str(f["detail"])[:400], {"kind": "map-pair", **f}, True, key=f["key"])
     chk.cov["rule"] = ("histories over few seeds/paths/names/action IDs and many configurations (incl. GOGARBLE values that look like flags); case = op line; distinct = distinct op lines")
     chk.assumptions += ["SHA-256 collision resistance on the compared pre-images", "cmd/go's action ID covers source, tags, GOOS/GOARCH and Go version (sampled end-to-end by C06/C03 only)",
                         "import paths contain no '|' (module.CheckImportPath)"]
